@@ -84,7 +84,12 @@ def get_node_repr(node):
         "%s=%s" % (param, arg) for param, arg in zip(params, key)
     )
 
-    if key in obj.data:
+    try:
+        has_value = key in obj.data
+    except TypeError:   # unhashable arguments (uncached cells)
+        has_value = False
+
+    if has_value:
         return name + "(" + arglist + ")" + "=" + str(obj.data[key])
     else:
         return name + "(" + arglist + ")"
